@@ -40,7 +40,7 @@ def run_case(job, ret_files=False):
     try:
         box.build(tree.spec("in"))
         child = tree.rel(1) if len(parents) > 1 else "gen"
-        out = {"abs": box.path("outside", "out"), "rel": "out", "nested": "in/gen/docs", "prepop": "out",
+        out = {"abs": box.path("outside", "out"), "rel": "out", "nested": "in/gen/docs", "nested1": "in/docs", "prepop": "out",
                "nested-in-subdir": f"in/{child}/_rst/deep"}[outmode]
         pre = {}
         if outmode == "prepop":
@@ -99,6 +99,9 @@ def jobs_for(tier):
                 for outmode in ("rel", "nested", "prepop", "nested-in-subdir"):
                     for recursive in (True, False):
                         jobs.append((parents, a, recursive, True, None, outmode, None))
+                # an output directory directly inside the input directory that does not exist yet, auto-exclusion off too
+                for recursive, auto in itertools.product((True, False), (True, False)):
+                    jobs.append((parents, a, recursive, auto, None, "nested1", None))
     if not quick:
         for parents in shapes:
             n = len(parents)
